@@ -444,7 +444,7 @@ def run(tier, seed):
             break
         mism += len(f)
         for j in f[:2]:
-            rep.violation("exitstack:model-mismatch", {"broken": "correspondence impl<->Model/ExitStack.v (x_run) or nested-with<->spec (nested)", "case": sh[j][:3000]}, no_input=not fails)
+            rep.violation("exitstack:model-mismatch", {"broken": "correspondence impl<->Model/ExitStack.v (x_run) or nested-with<->spec (nested)", "case": sh[j][:3000]}, no_input=not rep.has_failing_input())
     rep.cov["traces_validated_against_impl"] = len(ctexts) + len(ncs)
     rep.notes["model_mismatches"] = mism
     rep.notes["histories_vs_AsyncExitStack"] = len(hist)
